@@ -520,6 +520,8 @@ def generate(prop, seed, tier):
     sets = [[_w(r, [(r.randint(1, 8), 3), (r.randint(9, 30), 3), (r.randint(31, 60), 1)]) for _ in range(2)] for _ in range(nruns)]
     rule = _w(r, [(r.randint(1, 4), 4), (r.randint(5, 12), 3), (r.randint(13, 70), 1), (r.choice([1e-5, 5e-5]), 0.7), ([[0, 3], [4, 7]], 0.7)])
     frame = r.choice([None, None, ['slice', 0, max(1, m - 1), None], ['list', [m - 1, 0]], ['range', 0, m, 2]])
+    if m >= 3 and rng.stream(seed, 'frame2').random() < 0.12:
+        frame = ['list', rng.stream(seed, 'frame3').choice([[2, 0, 1], [1, 2, 0], [m - 1, 0, 1, 0]])]
     chain = r.choice([[], [], [], ['cast'], ['rev_affine'], ['rev_affine', 'append_prod'], ['append_prod']])
     faulty = fr.random() < 0.5
     scn = {'prop': 'C09', 'engine': 'ttest', 'seed': seed, 'precision': r.choice(['float32', 'float64']),
